@@ -1409,6 +1409,7 @@ func errorsIs(err, target error) bool {
 // ------------------------------------------------------------------------------------------------
 
 type Replay struct {
+	Case   string `json:"case"`
 	Key    string `json:"key"`
 	Class  string `json:"class"`
 	Type   string `json:"type"`
@@ -1438,6 +1439,10 @@ func TestGen(t *testing.T) {
 			data = []byte(rp.Input)
 		} else {
 			data, _ = hex.DecodeString(rp.Input)
+		}
+		if rp.Class == "bigvalue" {
+			rc.bigValues(t, seed, true, rp.Input)
+			data = nil
 		}
 		if rp.Class == "roundtrip" {
 			// the input is the JSON encoding of a value: rebuild the value and run the round trips on it
@@ -1977,6 +1982,9 @@ func TestGen(t *testing.T) {
 			rc.stat("set_marshal", 1)
 		}
 	}
+
+	// ---- the largest values through the real parsigex / p2p framing with default options
+	rc.bigValues(t, seed, thorough, "")
 
 	// ---- JSON-wire leg of accept => re-encode round trip, for everything any decode above accepted
 	t.Run("accept-json-leg", func(t *testing.T) {
